@@ -87,7 +87,15 @@ fn conv_seq<A: Alphabet>(r: Result<EncodedSequence<A>, InvalidSymbol>) -> Outcom
 fn encode_all<A: Alphabet, P: Encode<A>>(name: &'static str, pli: &P, text: &[u8], out: &mut Vec<(&'static str, &'static str, Outcome)>) {
     out.push((name, "encode_raw", conv::<A>(pli.encode_raw(text))));
     out.push((name, "encode", conv_seq::<A>(pli.encode(text))));
-    let mut dst = vec![A::Symbol::default(); text.len()];
+    // a reused destination: every element starts as a symbol that is NOT the right one for its position
+    let syms = A::symbols();
+    let mut dst: Vec<A::Symbol> = text
+        .iter()
+        .map(|b| {
+            let right = A::as_str().as_bytes().iter().position(|l| l == b).unwrap_or(0);
+            syms[(right + 1) % syms.len()]
+        })
+        .collect();
     let r = pli.encode_into(text, &mut dst);
     out.push((name, "encode_into", conv::<A>(r.map(|_| dst))));
 }
@@ -164,7 +172,7 @@ impl Sub for Bytes {
         "bytes"
     }
     fn rule(&self) -> &'static str {
-        "valid text (both alphabets, lengths 0..200 quick / ..5000 thorough, biased to multiples of 16 +-3) with 0-2 injected bytes from all 256 values (lower case, other alphabet's letters, NUL, >=0x80, punctuation) at positions relative to the 16/32-byte blocks and the scalar tail; encode / encode_raw / encode_into on generic, sse2, avx2 and the dispatcher forced to each arm, EncodedSequence::encode, from_str, Display compared with the model (ok iff all bytes in the alphabet; first offending byte reported); sweep = every length n <= 40 (quick) / 100 (thorough) x every position x every byte value; non-trivial = n > 32 (vector path taken)"
+        "valid text (both alphabets, lengths 0..200 quick / ..5000 thorough, biased to multiples of 16 +-3) with 0-2 injected bytes from all 256 values (lower case, other alphabet's letters, NUL, >=0x80, punctuation) at positions relative to the 16/32-byte blocks and the scalar tail; encode / encode_raw / encode_into (into a reused destination holding a wrong symbol at every position) on generic, sse2, avx2 and the dispatcher forced to each arm, EncodedSequence::encode, from_str, Display compared with the model (ok iff all bytes in the alphabet; first offending byte reported); sweep = every length n <= 40 (quick) / 100 (thorough) x every position x every byte value; non-trivial = n > 32 (vector path taken)"
     }
     fn cases(&self, tier: Tier) -> u64 {
         tier.pick(150_000, 4_000_000)
